@@ -52,6 +52,14 @@ class Choice:
         self.options = options
 
 
+class _HelperChoice:
+    """several correlated results of a helper call: [(value, facts about the caller's argument expressions)]"""
+    __slots__ = ('options',)
+
+    def __init__(self, options):
+        self.options = options
+
+
 class IfVal:
     __slots__ = ('node',)
 
@@ -67,6 +75,9 @@ class Exec:
         self.node, self.attr, self.sql, self.params, self.params_node, self.facts = node, attr, sql, params, params_node, facts
 
 
+_NORET = object()
+
+
 class Path:
     def __init__(self, env=None, facts=None, execs=None, open_=None):
         self.env = env if env is not None else {}
@@ -74,6 +85,7 @@ class Path:
         self.execs = execs if execs is not None else []
         self.open = open_ if open_ is not None else set()
         self.done = False   # returned / raised
+        self.ret = _NORET
 
     def fork(self):
         def cp(v):
@@ -101,6 +113,8 @@ class Evaluator:
         self.consts = module_consts(self.module, repo)
         self.bindings = bindings or {}
         self.loop_depth = 0
+        self.want_ret = False
+        self.depth = 0
 
     # -- expressions -------------------------------------------------------
     def const_of(self, name):
@@ -169,9 +183,25 @@ class Evaluator:
                 t = self.truth(arg, p)
                 if t is False:
                     return ''
-                return S.marker(f.id[1:], norm(arg))
+                ren = getattr(self, 'rename', None) or {}
+                return S.marker(f.id[1:], ren.get(norm(arg), norm(arg)))
             if isinstance(f, ast.Name) and f.id == 'dict' and len(e.args) == 1 and not e.keywords:
                 return Sym(ast.unparse(e), e)
+            if isinstance(f, ast.Name) and f.id in ('list', 'tuple') and len(e.args) == 1 and not e.keywords and f.id not in p.env:
+                x = self.expr(e.args[0], p)
+                if isinstance(x, Sym):
+                    return [Star(x)] if f.id == 'list' else (Star(x),)
+                if isinstance(x, (list, tuple)):
+                    return list(x) if f.id == 'list' else tuple(x)
+            if isinstance(f, ast.Name):
+                hr = self.helper_results(e, p)
+                if hr is not None:
+                    vals = [v for v, _ in hr]
+                    if len(hr) == 1:
+                        return vals[0]
+                    if all(isinstance(v, str) for v in vals):
+                        return Choice(list(dict.fromkeys(vals)))
+                    return _HelperChoice(hr)
             if isinstance(f, ast.Attribute):
                 if f.attr == 'join' and len(e.args) == 1:
                     sep = self.expr(f.value, p)
@@ -226,6 +256,90 @@ class Evaluator:
                     pass
             return Sym(ast.unparse(e), e)
         return Sym(ast.unparse(e), e)
+
+    # -- helper functions of the same module ----------------------------------
+    def helper_results(self, e, p):
+        """abstract results of calling a module-level function of the same module whose return value takes part in string
+        building: [(value, {caller test text: truth})] - one entry per distinct way the helper can return - or None."""
+        f = e.func
+        if not isinstance(f, ast.Name) or self.depth >= 2 or f.id in p.env:
+            return None
+        fi = self.module.funcs.get(f.id)
+        if fi is None or fi is self.func or fi.cls is not None or '.' in fi.qualname:
+            return None
+        if any(isinstance(n, (ast.Yield, ast.YieldFrom)) for n in walk_no_nested(fi.node)):
+            return None
+        if any(isinstance(a, ast.Starred) for a in e.args) or any(k.arg is None for k in e.keywords):
+            return None
+        a = fi.node.args
+        if a.vararg or a.kwarg:
+            return None
+        params = [x.arg for x in a.posonlyargs + a.args]
+        defaults = dict(zip(params[len(params) - len(a.defaults):], a.defaults))
+        for x, d in zip(a.kwonlyargs, a.kw_defaults):
+            params.append(x.arg)
+            if d is not None:
+                defaults[x.arg] = d
+        bound = dict(zip(params, e.args))
+        for k in e.keywords:
+            if k.arg not in params:
+                return None
+            bound[k.arg] = k.value
+        q = Path()
+        argtext = {}
+        for pn in params:
+            if pn in bound:
+                v = self.expr(bound[pn], p)
+                if isinstance(v, (IfVal, Choice)):
+                    v = Sym(ast.unparse(bound[pn]), bound[pn])
+                if isinstance(v, Sym):
+                    # keep the caller's spelling so that placeholder markers / parameter names refer to the caller's expression
+                    v = Sym(v.text, v.node)
+                q.env[pn] = v
+                argtext[pn] = norm(bound[pn])
+                t = self.truth(bound[pn], p)
+                if t is not None:
+                    q.facts[pn] = t
+                if isinstance(bound[pn], ast.Name) and bound[pn].id in p.open:
+                    q.open.add(pn)
+            elif pn in defaults:
+                try:
+                    q.env[pn] = self.expr(defaults[pn], Path())
+                except Exception:  # noqa: BLE001
+                    return None
+            else:
+                return None
+        sub = Evaluator(self.repo, fi, self.bindings)
+        sub.want_ret = True
+        sub.depth = self.depth + 1
+        sub.rename = {pn: argtext[pn] for pn in argtext}
+        try:
+            outs = sub.run(list(fi.node.body), [q])
+        except AnalysisError:
+            return None
+        res = []
+        for o in outs:
+            if o.ret is _NORET:
+                if o.done:
+                    continue      # raised
+                o.ret = None
+            facts = {}
+            for k, v in o.facts.items():
+                names = _names_of_text(k)
+                if names and names <= set(argtext):
+                    import re as _re
+                    k2 = _re.sub(r'\b(' + '|'.join(_re.escape(n) for n in names) + r')\b', lambda m: argtext[m.group(1)], k)
+                    facts[k2] = v
+            res.append((o.ret, facts))
+        # de-duplicate
+        uniq = []
+        for v, fc in res:
+            key = (repr(v), tuple(sorted(fc.items())))
+            if key not in [u[2] for u in uniq]:
+                uniq.append((v, fc, key))
+        if not uniq or len(uniq) > 12:
+            return None
+        return [(v, fc) for v, fc, _ in uniq]
 
     # -- truth folding -------------------------------------------------------
     def truth(self, test, p):
@@ -301,6 +415,12 @@ class Evaluator:
         elif isinstance(v, Choice):
             for c in v.options:
                 outs.append((p.fork(), c))
+        elif isinstance(v, _HelperChoice):
+            for val, facts in v.options:
+                q = p.fork()
+                for k, tv in facts.items():
+                    q.facts[k] = tv
+                outs.append((q, val))
         else:
             outs.append((p, v))
         res = []
@@ -374,6 +494,20 @@ class Evaluator:
         if isinstance(s, ast.Return):
             if s.value is not None:
                 self.effects(s.value, p)
+                if self.want_ret:
+                    v = self.expr(s.value, p)
+                    if isinstance(v, IfVal):
+                        outs = []
+                        for branch, val in ((v.node.body, True), (v.node.orelse, False)):
+                            q = p.fork()
+                            self.assume(v.node.test, val, q)
+                            q.ret = self.expr(branch, q)
+                            q.done = True
+                            outs.append(q)
+                        return outs
+                    p.ret = v
+            elif self.want_ret:
+                p.ret = None
             p.done = True
             return [p]
         if isinstance(s, ast.Raise):
